@@ -285,6 +285,11 @@ Perms == {p \in [1..NC -> 1..NC] : \A i, j \in 1..NC : i # j => p[i] # p[j]}
 PermLaw == (pc = "done" /\ Adm) =>
               \A p \in Perms : LET g == Feat(PermW(w, p), d) IN g.exc = "" /\ PermP(w, st, g, p)
 
+\* vacuity control (expected to be VIOLATED: the states the invariants above speak about are reachable, which
+\* needs every action of the pipeline)
+NoAdmissibleDone == ~(pc = "done" /\ Adm)
+NoRaise == pc # "raised"
+
 \* spec -> code: every complete waveform of the box with the expected outcome for every offset
 \* (exported by the harness configuration; see spec/mc/MC_FeaturesExport.tla)
 =============================================================================
